@@ -4,6 +4,7 @@ import json
 import tcpcl_sim as ts
 import tcpcl_scen as sc
 import tcpcl_monitors as tm
+import tcpcl_util as tu
 
 MODULE = 'DtnVerif.Props.C14'
 INT32 = 2 ** 31 - 1
@@ -205,6 +206,48 @@ def chatty_peer_scenario(rng, passive, keepalive, period_ms):
     return adv, bad
 
 
+def trickle_peer_scenario(rng, passive, idle, seglen, chunk, period_ms):
+    ''' X established (idle time `idle` s, keepalive off) against a peer which delivers ONE long XFER_SEGMENT in
+    pieces of `chunk` octets every `period_ms` (< idle time): octets keep arriving, so the idle time never elapses
+    "with no traffic in either direction" and X must not start idle-timeout termination before the message is complete. '''
+    from props import c17
+    adv = c17.Adversary(rng, passive, {'seg_init': 10, 'idle': idle, 'keepalive': 0})
+    x, sim = adv.x, adv.sim
+    bad = []
+    if not adv.to_state('established'):
+        return adv, bad
+    adv.drain()
+    data = bytes(rng.getrandbits(8) for _ in range(seglen))
+    msg = tu.rfc_encode({'k': 'xfer_segment', 'flags': 3, 'tid': 1, 'ext': tu.ext_blob([(0, 1, seglen.to_bytes(8, 'big'))]).hex(), 'data': data.hex()})
+    pos = 0
+    last_rx = ts.LOOP.now
+    while pos < len(msg) and not x.closed():
+        nxt = last_rx + period_ms
+        while ts.LOOP.now < nxt and not x.closed():
+            dls = [s.deadline for s in x.sources('timeout') if s.deadline is not None and s.deadline <= nxt]
+            step_to = min(dls + [nxt])
+            sim.advance(max(0, step_to - ts.LOOP.now))
+            for t in sim.due_timers(x):
+                sim.timer(x, t)
+                adv.drain()
+                terms = [m for m in adv.frames() if m['k'] == 'sess_term']
+                if terms and not bad:
+                    bad.append(('C14:idle-timeout-during-reception',
+                                'SESS_TERM(reason %d) written %d ms after the last received octets (idle time %d s) while a message was arriving in pieces'
+                                % (terms[0]['reason'], ts.LOOP.now - last_rx, idle)))
+        if x.closed() or bad:
+            break
+        adv.feed(msg[pos:pos + chunk])
+        pos += chunk
+        last_rx = ts.LOOP.now
+        adv.drain()
+    if not bad and not x.closed():
+        acks = [m for m in adv.frames() if m['k'] == 'xfer_ack']
+        if len(acks) != 1:
+            bad.append(('C14:trickled-segment-not-acknowledged', 'the segment delivered in pieces was acknowledged %d times' % len(acks)))
+    return adv, bad
+
+
 def run(chk):
     chk.prove(MODULE)
     rng, tier = chk.rng, chk.tier
@@ -249,6 +292,16 @@ def run(chk):
             for (sig, what) in bad:
                 chk.violation(sig, what, {'passive': passive, 'keepalive': ka, 'period_ms': period, 'x_cfg': adv.x.model_cfg(), 'x_events': adv.x.events})
             advs.append((adv, 'chatty peer passive=%s ka=%s period=%s' % (passive, ka, period)))
+    # trickling peer: every received chunk restarts the idle time
+    for passive in (False, True):
+        for (idle, seglen, chunk, period) in ((5, 40000, 5000, 2500), (2, 3000, 100, 1500), (3, 20000, 10240, 2999)):
+            adv, bad = trickle_peer_scenario(rng, passive, idle, seglen, chunk, period)
+            chk.case({'trickle_peer': True, 'passive': passive, 'idle': idle, 'seglen': seglen, 'chunk': chunk, 'period_ms': period})
+            chk.count('trickle-peer')
+            for (sig, what) in bad:
+                chk.violation(sig, what, {'passive': passive, 'idle': idle, 'seglen': seglen, 'chunk': chunk, 'period_ms': period,
+                                          'x_cfg': adv.x.model_cfg(), 'x_events': adv.x.events})
+            advs.append((adv, 'trickle peer passive=%s idle=%s chunk=%s period=%s' % (passive, idle, chunk, period)))
     reqs = [ts.model_requests(a.x) for (a, _l) in advs]
     try:
         outs = chk.driver(reqs)
